@@ -224,9 +224,27 @@ func CheckC10(e *fw.Env, l *Lab) {
 	for _, m := range tpls {
 		at, _ := walk.CacheContext() // state in which m is valid
 		readies = append(readies, ready{m, at})
+		// first in a transaction that is discarded (gas simulation, a later message of the same
+		// transaction fails): only committed state may decide whether the authority's message
+		// succeeds afterwards, and its effect must be the same
+		reh, _ := walk.CacheContext()
+		hr0 := w.Handle(reh, m)
+		digReh := w.StoreDigest(reh)
 		hr := w.Handle(walk, m)
 		e.Res.Eval()
 		name := gogoproto.MessageName(m)
+		if hr0.Err == nil && hr.Err != nil {
+			e.Res.Violate(fw.Violation{Property: "C10", Kind: "authority-valid-message-refused", Tags: map[string]string{"msg": name, "after": "discarded-rehearsal"},
+				Detail: fmt.Sprintf("%s signed by the authority succeeds on a context that is then discarded and fails on the committed state afterwards: %v", name, hr.Err)})
+			tplByType[name] = append(tplByType[name], m)
+			continue
+		}
+		if hr0.Err == nil && hr.Err == nil {
+			if diff := world.DigestDiff(digReh, w.StoreDigest(walk)); len(diff) != 0 {
+				e.Res.Violate(fw.Violation{Property: "C10", Kind: "authority-message-effect-depends-on-discarded-execution", Tags: map[string]string{"msg": name},
+					Detail: fmt.Sprintf("%s: the state after the committed execution differs from the state after the same execution on a discarded context (stores %v)", name, diff)})
+			}
+		}
 		if hr.Err != nil {
 			e.Res.Violate(fw.Violation{Property: "C10", Kind: "authority-valid-message-refused", Tags: map[string]string{"msg": name},
 				Detail: fmt.Sprintf("%s signed by the authority with valid content failed: %v", name, hr.Err)})
